@@ -34,6 +34,7 @@ def main(argv):
         print("oracle self-test: %d cases ok" % n)
         from . import hard
         print("solver self-test: %d cases ok" % hard.selftest())
+        print("getenv shim: %s" % (B.getenv_shim() or "not built (no C compiler) - the environment monitor will be skipped"))
         for profile, feats in (("dev", ()), ("release", ()), ("dev", ("full",)), ("release", ("full",)),
                                ("release", ("packed",)), ("o0-nochk", ()), ("release", ("full", "packed"))):
             B.build(profile, feats, quiet=False)
